@@ -356,6 +356,35 @@ fn kfold_shuffled(c: &mut Case, n: usize, k: usize, draws: usize) {
     c.bucket_if(identity_like < draws, "obs:non-consecutive-test-sets");
 }
 
+/// "With shuffling on the same holds for a random permutation": the quality of the randomness is not quantified, but
+/// a *random permutation* can be any permutation. For n = k in {2, 3, 4} (one sample per fold, so the sequence of test
+/// sets is the permutation itself) 60·n! draws have to show all n! arrangements; for a shuffle that can reach every
+/// permutation at all, missing one of them has probability below 1e-20 even if it is 10 times rarer than uniform.
+fn kfold_shuffle_support(c: &mut Case) {
+    let n = 2 + (c.index % 3) as usize;
+    let k = n;
+    let fact: usize = (1..=n).product();
+    let draws = 60 * fact * if n == 4 { 4 } else { 1 };
+    c.describe(json!({"api": "KFold::split", "n": n, "k": k, "shuffle": true, "draws": draws, "check": "every arrangement occurs"}));
+    c.nontrivial();
+    kfold_buckets(c, n, k, true);
+    let sg = format!("shuffle-support/n=k={}", n);
+    let mut seen: BTreeSet<Vec<usize>> = BTreeSet::new();
+    for _ in 0..draws {
+        let folds = match kfold_once(c, n, k, true, &sg) {
+            Some(f) => f,
+            None => return,
+        };
+        if folds.iter().any(|f| f.1.len() != 1) {
+            return; // reported by the fold checks
+        }
+        seen.insert(folds.iter().map(|f| f.1[0]).collect());
+    }
+    c.check("kfold.shuffle.every-permutation-reachable", seen.len() == fact, &sg, || {
+        format!("{} draws of the shuffled {}-fold split of {} samples produced only {} of the {} possible arrangements: {:?}", draws, k, n, seen.len(), fact, seen)
+    });
+}
+
 fn kfold_shuffle(c: &mut Case) {
     let (n, k) = grid(c.index);
     let draws = if c.tier.thorough() { 25 } else { 20 };
@@ -867,6 +896,7 @@ fn main() {
             Family::new("builders", 300, 3000, builders_fam),
             Family::new("kfold_grid", GRID, GRID, kfold_grid).exhaustive(true, true),
             Family::new("kfold_shuffle", GRID, 10 * GRID, kfold_shuffle),
+            Family::new("kfold_shuffle_support", 30, 300, kfold_shuffle_support),
             Family::new("kfold_large", 400, 4000, kfold_large),
             Family::new("cv_grid", GRID, GRID, cv_grid).exhaustive(true, true),
             Family::new("cv_shuffle", GRID, 10 * GRID, cv_shuffle),
